@@ -15,12 +15,9 @@ theorem nodeOK_fresh (m : Nat) : NodeOK hash (Node.ofTable (Table.mk' m)) := by
   have hn := mk'_n_ge m
   obtain ⟨k, hk⟩ := bitCeil_pow2 (max m groupSize)
   refine ⟨Or.inr ⟨rfl, ⟨k, hk⟩, hn.2, ?_, ?_⟩, ?_, fun _ i => claimAt_ofTable _ i, ?_, ?_, ?_⟩
-  · show (List.replicate _ emptyCtl).length = _
-    simp [Table.mk']
-  · show (List.replicate _ (none : Option Elem)).length = _
-    simp [Table.mk']
-  · show (List.replicate _ (none : Option Nat)).length = _
-    simp
+  · simp [Node.ofTable, Table.mk']
+  · simp [Node.ofTable, Table.mk']
+  · simp [Node.ofTable]
   · intro _ i _
     left
     exact ⟨by rw [show (Node.ofTable (Table.mk' m)).tab = Table.fresh _ from rfl]; exact fresh_ctl _ _,
@@ -49,11 +46,12 @@ theorem inv_alloc {s : State} (h : Inv hash s) {t : Nat} {f : Frame} (hpc : s.pc
   have hnew : nodeAt (s.nodes ++ [Node.ofTable (Table.mk' (f.n * 2 ^ growShift))]) s.nodes.length =
       Node.ofTable (Table.mk' (f.n * 2 ^ growShift)) := nodeAt_append_eq _ _
   have hchlt : ∀ x ∈ s.chain, x < s.nodes.length := h.chain.lt
+  have hlen : (s.nodes ++ [Node.ofTable (Table.mk' (f.n * 2 ^ growShift))]).length = s.nodes.length + 1 := by simp
   apply h.update (s' := setPc { s with nodes := s.nodes ++ [Node.ofTable (Table.mk' (f.n * 2 ^ growShift))] } t
     (.nextCas f s.nodes.length)) t _ rfl hle (List.prefix_refl _)
   · intro tb htb
     show NodeOK hash (nodeAt (s.nodes ++ [_]) tb)
-    have : tb < s.nodes.length + 1 := by simpa using htb
+    have : tb < s.nodes.length + 1 := by rw [← hlen]; exact htb
     rcases Nat.lt_or_ge tb s.nodes.length with h1 | h1
     · rw [hold tb h1]; exact h.nodes tb h1
     · have : tb = s.nodes.length := by omega
@@ -67,15 +65,15 @@ theorem inv_alloc {s : State} (h : Inv hash s) {t : Nat} {f : Frame} (hpc : s.pc
       rw [hold _ (hchlt _ (getD_mem hidx))]; exact h.chain.link idx hidx
   · intro tb htb hnm
     show (nodeAt (s.nodes ++ [_]) tb).next = none ∧ ∀ i, claimAt (nodeAt (s.nodes ++ [_]) tb) i = none
-    have : tb < s.nodes.length + 1 := by simpa using htb
+    have : tb < s.nodes.length + 1 := by rw [← hlen]; exact htb
     rcases Nat.lt_or_ge tb s.nodes.length with h1 | h1
     · rw [hold tb h1]; exact h.offChain tb h1 hnm
     · have : tb = s.nodes.length := by omega
       subst this
       rw [hnew]; exact ⟨rfl, fun i => claimAt_ofTable _ i⟩
   · intro tb1 i1 tb2 i2 k h1 h2 c1 c2
-    have h1' : tb1 < s.nodes.length + 1 := by simpa using h1
-    have h2' : tb2 < s.nodes.length + 1 := by simpa using h2
+    have h1' : tb1 < s.nodes.length + 1 := by rw [← hlen]; exact h1
+    have h2' : tb2 < s.nodes.length + 1 := by rw [← hlen]; exact h2
     change claimAt (nodeAt (s.nodes ++ [_]) tb1) i1 = some k at c1
     change claimAt (nodeAt (s.nodes ++ [_]) tb2) i2 = some k at c2
     rcases Nat.lt_or_ge tb1 s.nodes.length with l1 | l1
@@ -183,7 +181,9 @@ theorem inv_link {s : State} (h : Inv hash s) {t : Nat} {f : Frame} {nw : Nat}
       exact ⟨h.chain.nodup, by simp, fun a ha b hb => by simp at hb; subst hb; exact fun e => hnwc (e ▸ ha)⟩
     · intro idx hidx
       show (nodeAt (s.nodes.set f.tb _) ((s.chain ++ [nw]).getD idx 0)).next = (s.chain ++ [nw])[idx + 1]?
-      have hidx' : idx < s.chain.length + 1 := by simpa using hidx
+      have hidx' : idx < s.chain.length + 1 := by
+        have : idx < (s.chain ++ [nw]).length := hidx
+        simpa using this
       rcases Nat.lt_or_ge idx s.chain.length with h1 | h1
       · rw [hgetl idx h1]
         by_cases e : s.chain.getD idx 0 = f.tb
@@ -216,7 +216,9 @@ theorem inv_link {s : State} (h : Inv hash s) {t : Nat} {f : Frame} {nw : Nat}
     rw [hclaims] at c1 c2
     exact h.distinct tb1 i1 tb2 i2 k h1' h2' c1 c2
   · intro p' q x k hpq hq hc
-    have hq' : q < s.chain.length + 1 := by simpa using hq
+    have hq' : q < s.chain.length + 1 := by
+      have : q < (s.chain ++ [nw]).length := hq
+      simpa using this
     change claimAt (nodeAt (s.nodes.set f.tb _) ((s.chain ++ [nw]).getD q 0)) x = some k at hc
     show (nodeAt (s.nodes.set f.tb _) ((s.chain ++ [nw]).getD p' 0)).tab.Sat
     rw [hclaims] at hc
